@@ -213,7 +213,10 @@ Section IDCSTAR.
                             end
                         end
                     end in
-                scan nc
+                (* the conditions that kept their key come first, in the caller's order; the relabelled ones were added by iterating over a SET of
+                   keys (new_event_keys): every order of those is a possible run *)
+                let kept := List.length (filter (fun p => ev_has new_ev (fst p)) conditions) in
+                flat_map (fun added => scan (firstn kept nc ++ added)) (permutations (skipn kept nc) (List.length (skipn kept nc)))
             end) (make_counterfactual_graph_all (gv g) events (map V topo))
         end) (id_star g topo (S (4 * List.length (nodes g))) conditions)
     end.
